@@ -17,8 +17,8 @@ ID = "C20"
 LEVEL = "exploration"
 RULE = (
     "(a) skip_file: every input (atom programs, construct corpus, repository examples) x every physical line as the "
-    "carrier of '# pyrefact: skip_file' (as a trailing comment and as an own line) -> format_code under default and "
-    "safe must return the identical string; for the first / middle / last line also format_file (no write-mode open, "
+    "carrier of '# pyrefact: skip_file' (as a trailing comment and as an own line) -> format_code under default, safe, "
+    "keep_imports and safe+keep_imports+preserve must return the identical string; for the first / middle / last line also format_file (no write-mode open, "
     "bytes unchanged, falsy result) and main(['--from-stdin']) (prints the text plus the one newline print adds). "
     "(b) ignore: every atom program x every physical line of the atom (thorough: every line of the program, all four "
     "contexts) on which a trailing comment is lexically a comment and does not change the tree, annotated with "
@@ -77,7 +77,7 @@ def check_skip(ref, only=None):
     deep_rows = {0, nlines // 2, nlines - 1}
     for label, text in skip_variants(src):
         row = int(label.split(":")[1])
-        entries = ["format_code:default", "format_code:safe"]
+        entries = ["format_code:default", "format_code:safe", "format_code:keep_imports", "format_code:safe_keep_preserve"]
         if row in deep_rows and label.startswith("trail"):
             entries += ["format_file", "stdin"]
         for entry in entries:
@@ -103,7 +103,10 @@ def check_skip(ref, only=None):
 def _skip_entry(main, entry, text):
     boot.clear_caches()
     if entry.startswith("format_code"):
-        out = progs.format_code(text, {"safe": entry.endswith("safe")})
+        cname = entry.split(":")[1]
+        cfg = {"default": {}, "safe": {"safe": True}, "keep_imports": {"keep_imports": True},
+               "safe_keep_preserve": {"safe": True, "keep_imports": True, "preserve": ["x", "a", "f"]}}[cname]
+        out = progs.format_code(text, cfg)
         return None if out == text else "returned a different string"
     if entry == "format_file":
         path = os.path.join(os.getcwd(), "c20_skip.py")
